@@ -216,6 +216,9 @@ class GeneralThermodynamics:
         '''
         newPhase = 'DIS_' + phase
         self.phases[0] = newPhase
+        #The database may be shared with another thermodynamics object that already added the disordered phase
+        if newPhase in self.db.phases:
+            return
         self.db.phases[newPhase] = copy.deepcopy(self.db.phases[phase])
         self.db.phases[newPhase].name = newPhase
         del self.db.phases[newPhase].model_hints['ordered_phase']
